@@ -131,7 +131,8 @@ func (in *zvdInst) applicable(l zvdLab) bool {
 	case "drop":
 		return cn.open
 	case "reopen":
-		return !cn.open
+		st, _, _ := cn.sc.stage()
+		return !cn.open && st == "returned" // a handler still parked for the departed client keeps the id taken
 	}
 	return false
 }
@@ -270,6 +271,7 @@ func zvdRandomSteps(cfg *zvdRandomCfg, r *mrand.Rand) (nconns int, steps []zvdLa
 	n := cfg.MinLen + r.Intn(cfg.MaxLen-cfg.MinLen+1)
 	open := map[int]bool{}
 	waiting := map[int]int{} // connection -> code (only codes that park: < 40)
+	zombie := map[int]int{}  // departed client whose handler is still parked -> code
 	for c := 1; c <= nconns; c++ {
 		open[c] = true
 	}
@@ -286,7 +288,7 @@ func zvdRandomSteps(cfg *zvdRandomCfg, r *mrand.Rand) (nconns int, steps []zvdLa
 		_, parked := waiting[c]
 		switch {
 		case !open[c]:
-			if r.Intn(2) == 0 {
+			if _, z := zombie[c]; !z && r.Intn(2) == 0 {
 				steps = append(steps, zvdLab{K: "reopen", C: c, Rq: zvdNoRq})
 				open[c] = true
 			}
@@ -294,6 +296,7 @@ func zvdRandomSteps(cfg *zvdRandomCfg, r *mrand.Rand) (nconns int, steps []zvdLa
 			if r.Intn(6) == 0 {
 				steps = append(steps, zvdLab{K: "drop", C: c, Rq: zvdNoRq})
 				open[c] = false
+				zombie[c] = waiting[c]
 				delete(waiting, c)
 			}
 		case r.Intn(40) == 0:
@@ -331,6 +334,11 @@ func zvdRandomSteps(cfg *zvdRandomCfg, r *mrand.Rand) (nconns int, steps []zvdLa
 			for w, code := range waiting {
 				if code == fb {
 					delete(waiting, w)
+				}
+			}
+			for w, code := range zombie {
+				if code == fb {
+					delete(zombie, w)
 				}
 			}
 			if rq.Op == "wait" && rq.Code < 40 {
